@@ -142,6 +142,24 @@ pub fn gen_case(r: &mut Rng, out: &mut String) {
             writeln!(out, "tdump t2").unwrap();
         }
     }
+    // complete cancellation in some or all partitions (an emptied partition must disappear, also the last one)
+    for kind in ["own", "ref", "res_own", "res_ref"] {
+        if !r.chance(1, 2) {
+            continue;
+        }
+        writeln!(out, "tmulti xor {} t2 t0 t0", kind).unwrap();
+        writeln!(out, "tdump t2").unwrap();
+        writeln!(out, "tmulti xor {} t2 t0 t1 t0", kind).unwrap();
+        writeln!(out, "tdump t2").unwrap();
+        writeln!(out, "tmulti xor {} t2 t1 t0 t1 t0", kind).unwrap();
+        writeln!(out, "tdump t2").unwrap();
+        writeln!(out, "tmulti sub {} t2 t0 t1 t0", kind).unwrap();
+        writeln!(out, "tdump t2").unwrap();
+        writeln!(out, "tmulti and {} t2 t0 t1", kind).unwrap();
+        writeln!(out, "tdump t2").unwrap();
+        writeln!(out, "tnew t9").unwrap();
+        writeln!(out, "teq t2 t9").unwrap();
+    }
     if let Some(first) = items.first() {
         writeln!(out, "tdump {}", first).unwrap();
     }
